@@ -132,6 +132,14 @@ def run(chk):
                     # stale values of known fields sit in the embedded paragraph too
                     f = rng.choice(fields)
                     found.insert(rng.randrange(len(found) + 1), (f[1].encode(), b"stale"))
+                if rng.random() < 0.4:
+                    # ... and so do fields the struct knows under ANOTHER SPELLING (field names are not case-sensitive: "package"
+                    # is Package): one, or two of them, with or without the field in the struct's own spelling beside them
+                    f = rng.choice(fields)
+                    k = f[1].encode()
+                    variants = [v for v in (k.lower(), k.upper(), k.swapcase()) if v != k and v not in [x for x, _ in found]]
+                    for v in rng.sample(variants, min(len(variants), rng.choice([1, 1, 2]))):
+                        found.insert(rng.randrange(len(found) + 1), (v, rng.choice([b"stale", b"1.0", b"3"])))
             args = [tname.encode(), len(found)]
             for k, v in found:
                 args += [k, v]
@@ -177,13 +185,25 @@ def run(chk):
                 if not flags.get("required") and kind.startswith("list:") and canon == "[]" and k in keys_written:
                     why = "optional empty list %s was written" % key
             known = {key.encode() for _, key, _, _, _, _ in vals}
-            unk_in = [k for k, _ in found if k not in known]
+            fkeys = {k for k, _ in found}
+
+            def spelled(k):
+                """the struct's spelling of a field it knows in another letter case"""
+                if k in known:
+                    return k
+                for n in known:
+                    if n.lower() == k.lower():
+                        return n
+                return k
+            unk_in = [k for k, _ in found if spelled(k) not in known]
             unk_out = [k for k in keys_written if k not in known]
+            if any(k not in known and spelled(k) in known for k in keys_written) or len({k.lower() for k in keys_written}) != len(keys_written):
+                why = "a field the struct knows was written in another spelling, or twice"
             if HAS_PARA[tname] and unk_in != unk_out:
                 why = "unknown fields were not re-emitted in their original order: %r vs %r" % (unk_in, unk_out)
             if HAS_PARA[tname]:
                 for k, v in found:
-                    if k not in known and (k + b": " + v + b"\n") not in text:
+                    if spelled(k) not in known and (k + b": " + v + b"\n") not in text:
                         why = "unknown field %r was not re-emitted unchanged" % k
         if why:
             chk.violate({"kind": "property", "case": lib.show_case(c), "impl": i[:1500], "explanation": why})
@@ -316,7 +336,7 @@ def run(chk):
             text = bytes.fromhex(i.split(" ", 3)[1][1:])
             docs.append((tname, text, None))
             for f in req:
-                lines = [l for l in text.split(b"\n") if not l.startswith(f[1].encode() + b":")]
+                lines = [l for l in text.split(b"\n") if l.split(b":", 1)[0].lower() != f[1].encode().lower()]       # (in any letter case)
                 docs.append((tname, b"\n".join(lines), f[1]))
             docs.append((tname, gen.mutate(rng, text, [b"\n", b" ", b":", b",", b"x", b"-", b"1", b"yes", b"|"]), None))
     ucases = [("cunmarshal", [t.encode(), text]) for t, text, _ in docs]
